@@ -39,6 +39,23 @@ NO_RAW = ("icmp", "NDRouterSolicitation", "NDRouterAdvertisement", "NDNeighborSo
 UDP_FOREIGN = {67: "dhcp", 68: "dhcp", 53: "dns", 5353: "dns", 520: "rip", 4789: "vxlan"}
 
 
+class _StubTimer:
+    """stands in for pox.lib.recoco.Timer inside discovery: records nothing, never runs anything"""
+    def __init__(self, *a, **kw): pass
+    def cancel(self): pass
+
+
+class _StubCon:
+    """a connection as far as l2_learning / discovery use it; send() serialises the message (a handler whose message cannot be packed failed)"""
+    def __init__(self, dpid=1):
+        self.dpid = dpid; self.ports = {}; self.connect_time = 0.0; self.sent = 0
+    def addListeners(self, *a, **kw): return []
+    def send(self, m):
+        if not isinstance(m, (bytes, bytearray, memoryview)): m.pack()
+        self.sent += 1
+    def __str__(self): return "[stub %s]" % self.dpid
+
+
 def frame_case(b, how):
     return {"kind": "frame", "hex": bytes(b).hex(), "how": how}
 
@@ -73,7 +90,7 @@ class C15(Check):
                  "deliberate raise and %-format of None is an error) of the Ethernet/VLAN/LLC-SNAP/ARP/IPv4/ICMP/TCP(+options)/UDP/LLDP parse, pack "
                  "and print paths and the MPLS/EAPOL/EAP/IPv6(+extension headers)/ICMPv6(+NDP)/IGMP/GRE/VXLAN/RIP/DNS/DHCP parse paths + differential correspondence of the compiled model against the real classes on exhaustive truncation / "
                  "single-byte corruption / structure-aware / random frames + independent 'nothing raises, progress recorded' oracle on all 21 parsers")
-    rule = ("case = one byte string offered to ethernet(raw=...): a valid frame of the 105-frame corpus (all 21 modules; incl. realistic TCP SYN / SYN-ACK "
+    rule = ("case = one byte string offered to ethernet(raw=...): a valid frame of the 123-frame corpus (all 21 modules; incl. realistic TCP SYN / SYN-ACK "
             "option layouts and IGMP v1/v2/v3 queries and reports), every truncation of it (ICMPv6 / IGMP: also with the checksum recomputed), the payload-less "
             "TCP segments whose last option (every kind incl. MPTCP with every subtype, every length) starts in the last 1..4 header bytes, ALL 256 values at "
             "every protocol-selector / type / code / length / option-kind / option-length byte of every corpus frame and at every header byte of the "
@@ -110,6 +127,16 @@ class C15(Check):
             elif len(f) >= 58 and f[12:14] == b"\x86\xdd" and f[20] == 58: self._l4off[name] = 54
         self._known = common.Findings()
         self.fixes = self.detect_fixes()
+        # the event handlers that consume PacketIn.parsed in a stock controller: the learning switch and link discovery
+        self.l2 = importlib.import_module("pox.forwarding.l2_learning")
+        self.disc = importlib.import_module("pox.openflow.discovery")
+        self.disc.Timer = _StubTimer
+        core = importlib.import_module("pox.core").core
+        if not core.hasComponent("openflow_discovery"): core.registerNew(self.disc.Discovery)
+        self.D = core.openflow_discovery
+        self.core = core
+        self.anchors += [("pox/forwarding/l2_learning.py", "LearningSwitch._handle_PacketIn"), ("pox/openflow/discovery.py", "Discovery._handle_openflow_PacketIn"),
+                         ("pox/openflow/libopenflow_01.py", "ofp_match.from_packet")]
 
     # which of the repairs fixes/C15-K<n>_*.diff the tree under test has, read off the source of the function each one changes (the model is
     # asked for that variant: `Cfg.repairedWith fx`).  A repair that is present only in part, or written differently, is not recognised: the
@@ -176,6 +203,14 @@ class C15(Check):
         return loc or "?"
 
     def _exc(self, stage, e):
+        if stage == "handler":
+            # innermost function anywhere in pox/ (the handler itself, libopenflow's match / message code, or the packet library)
+            tb = e.__traceback__; loc = "?"; root = os.path.join(common.REPO, "pox") + os.sep
+            while tb is not None:
+                fn = tb.tb_frame.f_code.co_filename
+                if fn.startswith(root): loc = os.path.splitext(os.path.basename(fn))[0] + "." + tb.tb_frame.f_code.co_qualname
+                tb = tb.tb_next
+            return {"stage": stage, "exc": type(e).__name__, "where": loc}
         return {"stage": stage, "exc": type(e).__name__, "where": self._where(e)}
 
     @staticmethod
@@ -414,7 +449,51 @@ class C15(Check):
         except BaseException as e:
             if isinstance(e, (KeyboardInterrupt, SystemExit)): raise
             obs["pktin"] = self._exc("packet_in", e)
+        if self._with_handlers(case) and not isinstance(obs["pktin"], dict):
+            obs["handlers"] = self.handlers(b)
         return obs
+
+    @staticmethod
+    def _with_handlers(case):
+        """the handler oracle runs on the fixed corpus and on one generated case in eight (it costs as much as everything else together)"""
+        how = case.get("how", "")
+        return not how.startswith(("key", "set", "marks", "splice", "indel", "random", "nest")) or int(case["hex"][-2:] or "0", 16) % 8 == 3
+
+    def handlers(self, b):
+        """Real PacketIn events for the frame into the handlers of a stock controller: `l2_learning.LearningSwitch._handle_PacketIn` (plain and
+        transparent; the destination is made known on another port first, so that the flow-install path with `ofp_match.from_packet` runs as well
+        as the flood / drop paths of the first call) and `discovery.Discovery._handle_openflow_PacketIn`.  {handler: exception} — empty when all return."""
+        out = {}
+        def run(name, f):
+            try: f()
+            except BaseException as e:
+                if isinstance(e, (KeyboardInterrupt, SystemExit)): raise
+                out[name] = self._exc("handler", e)
+        for name, transparent in (("l2_learning", False), ("l2_learning_transparent", True)):
+            def f():
+                con = _StubCon()
+                ls = self.l2.LearningSwitch(con, transparent)
+                pi = self.ofp_packet_in(data=b, in_port=3); pi.buffer_id = None
+                ls._handle_PacketIn(self.PacketIn(con, pi))                       # unknown destination: learn, flood / drop
+                pi2 = self.ofp_packet_in(data=b, in_port=3); pi2.buffer_id = 7
+                ev = self.PacketIn(con, pi2)
+                ls.macToPort[ev.parsed.dst] = 9                                   # known destination on another port: install a flow
+                ls._handle_PacketIn(ev)
+            run(name, f)
+        def g():
+            conns = self.core.openflow._connections
+            class AllKnown(type(conns)):
+                def __contains__(s, item): return True
+            self.core.openflow._connections = AllKnown()
+            try:
+                con = _StubCon(0xfffffffffffe)
+                pi = self.ofp_packet_in(data=b, in_port=0xfffd); pi.buffer_id = None
+                self.D._handle_openflow_PacketIn(self.PacketIn(con, pi))
+            finally:
+                self.core.openflow._connections = conns
+                self.D.adjacency.clear()
+        run("discovery", g)
+        return out
 
     # ------------------------------------------------------------------ the property on the implementation's observables
     def oracle(self, case, obs):
@@ -433,6 +512,8 @@ class C15(Check):
         if obs["slices"]: return "progress: " + obs["slices"]
         if obs["pktin"] != sk: return "PacketIn.parsed differs from ethernet(raw): %s vs %s" % (obs["pktin"][:3], sk[:3])
         if not obs.get("pktin_same_object"): return "PacketIn.parsed re-parses on every access"
+        for name, x in sorted(obs.get("handlers", {}).items()):
+            return "handler %s raises %s in %s" % (name, x["exc"], x["where"])
         # pack / str / dump.  One registered finding must not hide another failure of the same frame; and a frame whose only failures are
         # registered pack()/print findings is NOT reported as failing here: the runner skips the model comparison for failing cases, and the
         # parse chain of those frames (every parsed DHCP, NDP, GRE-with-routing frame) must still be compared with the model.  Those
@@ -466,6 +547,9 @@ class C15(Check):
             x = obs[m.group(1)]
             st = "print" if m.group(1) in ("str", "dump") else "pack"
             return "%s:%s:%s" % (st, x["where"], x["exc"])
+        m = re.match(r"handler (\w+) raises", failure)
+        if m:
+            x = obs["handlers"][m.group(1)]; return "handler:%s:%s:%s" % (m.group(1), x["where"], x["exc"])
         if failure.startswith("progress:"):
             return "progress:" + re.sub(r"\d+", "N", failure[len("progress: "):])[:60]
         return failure[:60]
@@ -752,43 +836,52 @@ class C15(Check):
         return {"repairs_detected_in_source": self.fixes + self.vars, "known_pack_print_findings_hit": sorted(self.soft_known), "distinct_failure_keys": dict(sorted(self.keys_seen.items())), "technique": self.technique, "level_text": self.level_text, "level_note": self.level_note, "design_ref": self.design_ref}
 
 C15.theorems = ["Pox.C15." + t for t in (
-    "parse_total_partial", "parse_total_of_no_known", "nesting_defect", "progress_recorded", "repack_total_partial", "print_total_partial",
-    "parse_total_with", "parse_total_fixed", "refines_c14", "lldp_d14_defect", "lldp_tlv_malformed_defect", "llc_print_defect", "lldp_print_defect", "tcp_repack_defect",
-    "known_k5v", "known_k5i", "known_k6", "known_k7", "known_k8", "known_k9", "known_k10", "known_k13", "known_k14", "known_witnesses_repaired")]
+    "parse_total_with", "parse_total_partial", "parse_total_of_no_known", "parse_total_fixed", "parse_total_guarded", "parse_total", "nesting_defect",
+    "progress_recorded", "repack_total_partial", "print_total_partial", "print_total", "tcp_options_fuel", "refines_c14",
+    "lldp_d14_defect", "lldp_tlv_malformed_defect", "llc_print_defect", "lldp_print_defect", "tcp_repack_defect",
+    "known_k5v", "known_k5i", "known_k6", "known_k7", "known_k8", "known_k9", "known_k10", "known_k13", "known_k14", "known_witnesses_repaired",
+    "nesting_guard_witness", "dns_names_witness")]
 C15.level_text = (
     "Proved in Lean for EVERY byte string offered to ethernet(raw=...) (= PacketIn.parsed), for a model in which every struct.unpack of a wrong-size slice, "
-    "index past the end, ord() of an empty slice, deliberate raise, assert and %-format of None is an error: given len/4+1 nested constructor activations the "
-    "code at HEAD either returns an object chain or raises at one of the registered findings C15-K5..K14 - nothing else (parse_total_partial, "
-    "parse_total_of_no_known) - on every path through the parser classes of all 21 modules: Ethernet -> 802.1Q (nested) / LLC-SNAP -> ARP / IPv4(+options) -> ICMP echo/unreachable/"
-    "time-exceeded (quoted datagram, nested) / TCP (+option parser) / UDP, LLDP with all TLV classes, and (phase 2) MPLS, EAPOL/EAP, IPv6 + extension-header "
-    "chain, ICMPv6 (checksum, echo, unreachable, time-exceeded, packet-too-big) + NDP RS/RA/NS/NA with the option walker, IGMP v1-v3, GRE (+source routing), "
-    "VXLAN, RIP, DNS (as the code stands), DHCP (fixed part + option walker). Each finding K5..K14 has a decided witness (known_k*). The model is parametrised by "
-    "the set of proposed repairs fixes/C15-K<n>_*.diff the tree has (read off the source on every run): with any subset applied the only possible raises are the findings "
-    "NOT repaired (parse_total_with), each witness parses once its repair is in (known_witnesses_repaired), and with all of them ethernet(raw=...) returns for EVERY byte "
-    "string (parse_total_fixed). The result covers the whole input and tiles it "
-    "(progress_recorded); pack() of any result made of phase-1 classes is defined (repack_total_partial), str()/dump() is defined (print_total_partial); "
-    "the phase-1 model returns what the total C14 parser returns (refines_c14). Also proved: for every nesting budget d a frame of 14+4d bytes raises "
-    "RecursionError (nesting_defect, K1), and five defects of the tree before the repairs with their repaired counterparts. Every run re-checks BOTH models "
-    "(phase-2 parsers modelled / left foreign) against the real classes on every truncation and single-byte corruption of 105 valid frames covering all 21 "
-    "modules and evaluates the 'nothing raises, progress recorded' oracle.")
+    "index past the end, ord() of an empty slice, deliberate raise, assert and %-format of None is an error, and for EVERY combination of the repairs the tree "
+    "may have (fx: the K repairs of the registered findings; vr: the result-changing repairs D46/D48/D49/D50 - both read off the source on every run): "
+    "given len/4+1 nested constructor activations the code returns an object chain that covers and tiles the input and whose only opaque layer can be a TCP "
+    "segment with the MPTCP option, or raises at a registered finding whose repair the tree does NOT have - nothing else (parse_total_with; with K5..K16, i.e. "
+    "/repo HEAD, it always returns: parse_total_fixed). With the nesting guard K1 (fixes/C15-K1_nesting_guard.diff) the budget hypothesis is discharged: 35 nested "
+    "activations suffice for every input however long or nested (parse_total_guarded, and unconditionally for the fully repaired tree: parse_total); without it a "
+    "frame of 14+4d bytes raises RecursionError for every budget d (nesting_defect, K1). Paths covered: Ethernet -> 802.1Q (nested) / LLC-SNAP -> ARP / IPv4(+options) "
+    "-> ICMP echo/unreachable/time-exceeded (quoted datagram, nested) / TCP (+option parser; its loop never runs out of model fuel: tcp_options_fuel) / UDP, LLDP with "
+    "all TLV classes, MPLS, EAPOL/EAP, IPv6 + extension-header chain, ICMPv6 + NDP RS/RA/NS/NA with the option walker, IGMP v1-v3, GRE (+source routing), VXLAN, RIP, "
+    "DHCP (fixed part + option walker), DNS (header as the code stands; with D46 questions, resource records and name decompression: a compression-pointer loop ends in "
+    "CPython's RecursionError inside dns.parse's try/except Exception - parse gives up, nothing escapes; dns_names_witness). str()/dump() of any chain without an MPTCP "
+    "layer is defined, phase-2 classes included (print_total_partial, print_total); pack() of any result made of phase-1 classes is defined (repack_total_partial); the "
+    "phase-1 model returns what the total C14 parser returns (refines_c14). Each finding K5..K14 has a decided witness that parses once its repair is in "
+    "(known_k*, known_witnesses_repaired), the guard has one (nesting_guard_witness), and five defects of the tree before the phase-1 repairs have theirs. Every run "
+    "re-checks BOTH models (phase-2 parsers modelled / left foreign) against the real classes on every truncation and single-byte corruption of 123 valid frames "
+    "covering all 21 modules, evaluates the 'nothing raises, progress recorded' oracle on parse, PacketIn.parsed, pack(), str(), dump(), and raises real PacketIn "
+    "events for the corpus and one generated frame in eight into the l2_learning (plain and transparent; flood, drop and flow-install paths with "
+    "ofp_match.from_packet) and discovery handlers.")
 C15.level_note = (
-    "The theorems are about the hand-written model Model/PacketParse.lean of the code at HEAD, i.e. after the repairs D14, C15-1..C15-8 (Cfg.head = the tree before "
-    "them, used only by the _defect witnesses); they are tied to the code only by the differential run. PARTIAL: a TCP segment carrying the MPTCP option ends the model's "
-    "chain as `foreign` (nothing proved; oracle only); the DHCP option *classes* are not modelled (unpackOptions wraps each in try/except and falls back to the raw "
-    "bytes; the model keeps code + bytes); pack()/str() of the phase-2 classes are not modelled (their known failures are findings K2-K4, K11, K12, K15, K16; "
-    "oracle only). Proposed repairs exist for K2 (also removes K4), K3, K5-K14, K16 (fixes/C15-K<n>_*.diff, each applies alone to HEAD); the parse-stage ones "
-    "are model variants detected from the source (evidence field repairs_detected_in_source), the pack-stage ones (K2, K3, K11, K12, K16) are judged by the oracle only. "
-    "K1 (nesting) and K15 (DHCP option packing, D45 family) have no patch. DNS is modelled as the code stands: any announced question/record makes parse give up (ord() on an int inside the try/except, D46), so name "
-    "decompression and its pointer loops are unreachable and not modelled. K14 is over-approximated (IPAddr of a 0..3-byte slice is libc's text parse): where "
-    "Python happens to accept the text the model declines and nothing is compared. struct.pack('!I', len) in the ICMPv6 checksum is assumed not to overflow "
-    "(frames < 4 GiB). Python's recursion limit is modelled abstractly as a nesting budget (CPython spends 2-3 frames per nested header). The print model contains "
-    "only the two raising operations found in the phase-1 classes' __str__ methods. Exponential time of pack() on nested UDP encapsulation is outside the property.")
+    "The theorems are about the hand-written model Model/PacketParse.lean; they are tied to the code only by the differential run. PARTIAL: what a TCP segment "
+    "carrying the MPTCP option parses to is outside the model (`foreign`; the theorems say it is the only such layer; tcp.parse wraps parse_options in except "
+    "Exception; oracle only); the DHCP option *classes* are not modelled (unpackOptions wraps each in try/except and falls back to the raw bytes; the model keeps "
+    "code + bytes); pack() of the phase-2 classes is not modelled (oracle only; the registered pack findings K2-K4, K11, K12, K15, K16 are repaired in HEAD); "
+    "str() of an object whose parse gave up prints constructor defaults and is checked by the oracle only. K14 (before its repair) is over-approximated (IPAddr "
+    "of a 0..3-byte slice is libc's text parse): where Python happens to accept the text the model declines and nothing is compared. DNS with D46: the model "
+    "follows up to 1025 compression pointers per name (a loop-free chain visits each of the 1024 reachable offsets at most once); CPython gives up (caught "
+    "RecursionError) when a chain is longer than the stack it has left - about 900 hops, which needs overlapping pointers - there the model says parsed and the "
+    "code says unparsed; neither raises. struct.pack('!I', len) in the ICMPv6 checksum is assumed not to overflow (frames < 4 GiB). Python's recursion limit is "
+    "modelled abstractly as a number of nested constructor activations (CPython spends 2-3 frames per nested header). The print model contains the operations that "
+    "can raise (%d/%i/%x conversions, the llc / lldp cases found in phase 1) and the try/except of packet_base.__str__ around _to_str. Exponential time of pack() on "
+    "nested UDP encapsulation is outside the property. Event handlers are not modelled: the oracle drives l2_learning and discovery with real PacketIn events; other "
+    "components' handlers are out of scope.")
 C15.trusted_base = [
     "model Model/PacketParse.lean (reusing the header records, struct layouts, hdr() and TCP option models of Model/PacketHdr.lean, C14) hand-written from pox/lib/packet; tied by this correspondence run",
     "harness/c15_frames.py: hand-written wire builders for the corpus of valid frames; harness/c15.py: mutation engines, canonicalisation of the object chain, the oracle"]
 C15.assumptions = [
     "struct.unpack raises exactly when the slice size differs from the format size; slicing never raises; bytes indexing raises IndexError past the end",
-    "the interpreter allows len(frame)/4 + 1 nested constructor activations (about 3 Python frames each) below the handler that touches event.parsed",
+    "without the K1 repair: the interpreter allows len(frame)/4 + 1 nested constructor activations (about 3 Python frames each) below the handler that touches event.parsed; with it: 35",
+    "event handlers other than l2_learning.LearningSwitch._handle_PacketIn and discovery.Discovery._handle_openflow_PacketIn (oracle only, not modelled) are out of scope",
     "logging calls (self.msg / lg.debug) do not raise",
     "little-endian host (checksum model, as in C14)"]
 
